@@ -307,6 +307,65 @@ def run_env(cfg, sid, transport, ka, latency, reject, seed):
     return n, vio
 
 
+def job_overlapping_writes(j):
+    """Two write_setting() calls on one object at the same time (same setting: two values, or the same value twice; or a
+    write next to a read of the same setting): every call that reports success stands for exactly one write request that
+    reached the inverter, in some order; the registers end up holding the encoding of the write that arrived last."""
+    import asyncio
+    cfg, sid, transport, ka, seed = j
+    vio = []
+    n = 0
+    probe = make_rig(cfg, transport, fill=lambda a: 0)
+    if probe.call(probe.inv.read_device_info)[0] != 'ok':
+        return 0, []
+    s0 = probe.inv._settings.get(sid)
+    if s0 is None or not in_scope(cfg, s0):
+        return 0, []
+    t = type(s0).__name__
+    nregs = (refdec.size_of(s0) + 1) // 2 if t not in ('ByteH', 'ByteL') else 1
+    vals = domain(s0, False)
+    v1, v2 = vals[len(vals) // 2], vals[-1] if vals[-1] != vals[len(vals) // 2] else vals[0]
+    for what, a, b in (('two-values', v1, v2), ('same-value-twice', v1, v1), ('write+read', v1, None)):
+        r = make_rig(cfg, transport, fill=lambda a_: ((a_ * 40503 + seed * 31 + 7) & 0xFFFF) % 60000, T=1, R=1, ka=ka)
+        inv, dev = r.inv, r.dev
+        if r.call(inv.read_device_info)[0] != 'ok':
+            continue
+        s = inv._settings.get(sid)
+        w0 = len(dev.writes)
+
+        async def both():
+            return await asyncio.gather(inv.write_setting(sid, a), inv.write_setting(sid, b) if b is not None else inv.read_setting(sid),
+                                        return_exceptions=True)
+        res = r.call(both)
+        n += 1
+        if res[0] != 'ok':
+            vio.append((f'write-succeeds/{t}/overlapping/{what}', f'{sid}: {res[1:]}', what))
+            continue
+        ok_writes = sum(1 for k_, x in enumerate(res[1]) if not isinstance(x, BaseException) and (k_ == 0 or b is not None))
+        failed = [type(x).__name__ for x in res[1] if isinstance(x, BaseException)]
+        if failed:
+            vio.append((f'write-succeeds/{t}/overlapping/{what}', f'{sid}: {failed} on a healthy inverter', what))
+        ws = dev.writes[w0:]
+        if len(ws) != ok_writes:
+            vio.append((f'exactly-one-write/{t}/overlapping/{what}', f'{sid}: {ok_writes} successful write_setting() calls, {len(ws)} write requests '
+                                                                     f'reached the inverter (ka={int(ka)}, {transport})', what))
+        elif ws and t not in ('ByteH', 'ByteL'):
+            prior = bytes(nregs * 2)
+            allowed = {bytes(refdec.encode(s, x, prior)) for x in (a, b) if x is not None}
+            if dev.rf.getbytes(s.offset, nregs) not in allowed:
+                vio.append((f'carries-the-encoding/{t}/overlapping/{what}', f'{sid}: registers {dev.rf.getbytes(s.offset, nregs).hex()} after overlapping writes', what))
+    out = {}
+    for key, cause, what in vio:
+        kk = f"{key}/{cfg['name']}"
+        out.setdefault(kk, []).append(dict(key=kk, clause=key.split('/')[0], replay=dict(part='overlapping-writes', cfg=cfg, sid=sid, transport=transport, ka=ka, seed=seed),
+                                           detail=dict(cause=cause, setting=sid, case=what)))
+    res = []
+    for key, lst in out.items():
+        lst[0]['n'] = len(lst)
+        res.append(lst[0])
+    return n, res
+
+
 def job_after_lost_tail(j):
     """The call before the write was a read whose answer arrived only as a head of k bytes on every attempt (the read
     failed), for EVERY k: the write that follows is one write, carries the encoding and reads back."""
@@ -500,6 +559,12 @@ def run(tier, seed, rep):
                     if transport == 'udp' or tier == 'thorough':
                         for code in (3, 4, 6):
                             ejobs.append((cfg, sid, transport, ka, 0.001, code, seed))
+    now_ = 0
+    owjobs = [(c, sid, tr, ka, seed) for c in settings_configs() if c['family'] != 'ES'
+              for sid in ('grid_export_limit', 'eco_mode_2', 'battery_discharge_depth', 'eco_mode_2_switch', 'time') for tr in ('udp', 'tcp') for ka in (False, True)]
+    for n, res in pmap(job_overlapping_writes, owjobs):
+        now_ += n
+        rep.add_many(res)
     nlt = 0
     ltjobs = [(c, sid, ka, seed) for c in settings_configs() if c['family'] != 'ES'
               for sid in ('grid_export_limit', 'eco_mode_2', 'battery_discharge_depth') for ka in (False, True)]
@@ -520,7 +585,7 @@ def run(tier, seed, rep):
         total += n
         ne += e
         rep.add_many(res)
-    cov = dict(writes_after_a_read_that_lost_its_tail=nlt, writes_with_a_neighbour_object=nnb, environment_runs=nenv, api_session_histories=_api['histories'], api_session_states=_api['states'],
+    cov = dict(overlapping_write_pairs=now_, writes_after_a_read_that_lost_its_tail=nlt, writes_with_a_neighbour_object=nnb, environment_runs=nenv, api_session_histories=_api['histories'], api_session_states=_api['states'],
                states=max(ne, 1), transitions=max(total, 1), executions=total, traces_validated_against_impl=total,
                settings_jobs=len(jobs), distinct_encodings_written=ne, exhaustive=(tier == 'thorough'),
                bound='every setting of ET (eco v1 / v2 / 745 variants), DT (single / three phase) and the register-addressed ES '
@@ -548,6 +613,9 @@ def replay(r):
     cfg['refused'] = tuple(cfg['refused'])
     if 'firmware' in cfg and isinstance(cfg['firmware'], dict):
         cfg['firmware'] = bytes.fromhex(cfg['firmware']['hex'])
+    if r.get('part') == 'overlapping-writes':
+        n, res = job_overlapping_writes((cfg, r['sid'], r['transport'], r['ka'], r['seed']))
+        return dict(pairs=n, violations=[(v['key'], v['detail']['cause']) for v in res])
     if r.get('part') == 'lost-tail':
         n, res = job_after_lost_tail((cfg, r['sid'], r['ka'], r['seed']))
         return dict(writes=n, violations=[(v['key'], v['detail']['cause']) for v in res])
